@@ -5,6 +5,13 @@ open Gen
 
 theorem fmod12 (a : Int) : Int.fmod a 12 = a % 12 := Int.fmod_eq_emod_of_nonneg a (by decide)
 
+/-- decidable equality of results (used by the non-vacuity examples only) -/
+instance instDecEqExcept {ε α : Type} [DecidableEq ε] [DecidableEq α] : DecidableEq (Except ε α)
+  | .ok a, .ok b => if h : a = b then isTrue (by rw [h]) else isFalse (by intro e; cases e; exact h rfl)
+  | .error a, .error b => if h : a = b then isTrue (by rw [h]) else isFalse (by intro e; cases e; exact h rfl)
+  | .ok _, .error _ => isFalse (by intro e; cases e)
+  | .error _, .ok _ => isFalse (by intro e; cases e)
+
 /-! ### the generated pitch-class tables are consistent with each other -/
 
 /-- going one scale step up adds `_STEPS_ABOVE[step]` semitones to `_STEPS_MIDI[step]` (mod 12) -/
